@@ -27,6 +27,9 @@ type Ledger struct {
 	// per function, the header texts of its loops that carry no contract (explicit or inferred) on the
 	// pinned tree; a loop without contract that is not listed here was introduced by the change
 	BareLoops map[string][]string `json:"bare_loops,omitempty"`
+	// per function, the contract clauses that could not be evaluated on the pinned tree because they name
+	// something that is not in scope at that program point (normal for clauses written for some paths only)
+	Unevaluable map[string][]string `json:"unevaluable_clauses,omitempty"`
 }
 
 type KnownFinding struct {
@@ -413,6 +416,10 @@ func cmdCheck(args []string) {
 			behindNewFn = append(behindNewFn, ob.Name+" (the function has a new loop \""+nl+"\", which has no invariant)")
 			continue
 		}
+		if sc := vcOf[ob].staleClause(&led); sc != "" && !decisiveKind(ob.Kind) {
+			behindNewFn = append(behindNewFn, ob.Name+" (a contract clause of the function cannot be evaluated any more: "+sc+")")
+			continue
+		}
 		if ob.Result == "conditional" {
 			viols = append(viols, violation{ob, ob.Model})
 			continue
@@ -453,6 +460,11 @@ func cmdCheck(args []string) {
 		}
 		if nl := vcOf[ob].newBareLoop(&led, ob); nl != "" && !decisiveKind(ob.Kind) {
 			fmt.Printf("UNDECIDED property=%s obligation=%q\n", *prop, ob.Name+" (the function has a new loop \""+nl+"\", which has no invariant)")
+			undecidedNew = append(undecidedNew, ob)
+			continue
+		}
+		if sc := vcOf[ob].staleClause(&led); sc != "" && !decisiveKind(ob.Kind) {
+			fmt.Printf("UNDECIDED property=%s obligation=%q\n", *prop, ob.Name+" (a contract clause of the function cannot be evaluated any more: "+sc+")")
 			undecidedNew = append(undecidedNew, ob)
 			continue
 		}
@@ -700,9 +712,13 @@ func writeLedger(e *Engine, path, prop string, obls []*Obligation, vcs []*VC) {
 		led.AllFuncs = append(led.AllFuncs, name)
 	}
 	led.BareLoops = map[string][]string{}
+	led.Unevaluable = map[string][]string{}
 	for _, vc := range vcs {
 		if len(vc.bareLoops) > 0 {
 			led.BareLoops[e.fname(vc.fn)] = append([]string{}, vc.bareLoops...)
+		}
+		if u := vc.unknownNameClauses(); len(u) > 0 {
+			led.Unevaluable[e.fname(vc.fn)] = u
 		}
 	}
 	sort.Strings(led.AllFuncs)
@@ -774,6 +790,48 @@ func (vc *VC) newBareLoop(led *Ledger, ob *Obligation) string {
 			return t
 		}
 		cnt[t]--
+	}
+	return ""
+}
+
+// unknownNameClauses: the contract clauses of the function that name an identifier which is not in scope where
+// the clause is evaluated (deduplicated texts)
+func (vc *VC) unknownNameClauses() []string {
+	seen := map[string]bool{}
+	var out []string
+	for _, u := range vc.unsupported {
+		if !strings.Contains(u, "unknown identifier") {
+			continue
+		}
+		// drop the position part ("(back edge from block ...)") so that the text is stable
+		if i := strings.Index(u, " (back edge"); i > 0 {
+			u = u[:i]
+		}
+		if !seen[u] {
+			seen[u] = true
+			out = append(out, u)
+		}
+	}
+	sort.Strings(out)
+	return out
+}
+
+// staleClause: a contract clause of the function cannot be evaluated any more because it names a variable that
+// the change renamed or removed (it could be evaluated on the pinned tree). The clause - typically a loop
+// invariant - is silently missing from the proof: what fails for want of it is undecided, the contract needs
+// maintenance.
+func (vc *VC) staleClause(led *Ledger) string {
+	if led.Unevaluable == nil {
+		return ""
+	}
+	base := map[string]bool{}
+	for _, u := range led.Unevaluable[vc.e.fname(vc.fn)] {
+		base[u] = true
+	}
+	for _, u := range vc.unknownNameClauses() {
+		if !base[u] {
+			return u
+		}
 	}
 	return ""
 }
